@@ -498,7 +498,7 @@ func TestVerifC08(t *testing.T) {
 		c08script([]int{2}, []int{0}, [][3]int{{0, 0, 1}, {1, 0, 0}, {0, 0, 0}, {2, 0, 0}}),
 		c08script([]int{3}, []int{2}, [][3]int{{0, 0, 2}, {1, 0, 0}, {0, 0, 1}, {0, 0, 0}, {2, 0, 0}}),
 	}
-	nscript := vharness.Budget(40, 1500)
+	nscript := vharness.Budget(40, 400)
 	if vharness.Budget(1, 1) == 0 {
 		nscript = 2
 	}
@@ -517,7 +517,7 @@ func TestVerifC08(t *testing.T) {
 		acts = append(acts[:pf], append([][3]int{{2, 0, 0}}, acts[pf:]...)...)
 		scripted = append(scripted, c08script([]int{n}, []int{a}, acts))
 	}
-	perScript := vharness.Budget(4, 40)
+	perScript := vharness.Budget(4, 12)
 	for _, sc := range scripted {
 		sc := sc
 		var o *c08obs
